@@ -17,6 +17,12 @@ same sampler, same oracle, signatures end in `wrapped:<type>`: a wrapper that dr
 method (e.g. `open_disabled`, which is what makes a sampler-rejected root an unsampled trace)
 falls back to the trait default.
 
+... and on one of four runtimes (generic / `setup_with_sampler` slot, with / without the sampled-trace
+filter) whose sampler, runtime filter and emitter are INSTRUMENTED AND RE-ENTRANT: while consulted they
+run `#[emit::span(rt: POLICY_RT)]` functions on a second trace-context runtime, enter frames and push
+headers on the same context, emit events through either runtime and read the current context (section
+"RE-ENTRANT user components" below; signatures `C18:reentrant:*`).
+
 The sampler is a seeded table ("decision for the k-th call in this tree") that logs every call
 with the `SpanCtxt` it was shown. Trees additionally push headers with `Traceparent::push` /
 `emit_traceparent::push(tp, tracestate)` at the top level and around arbitrary children: headers
@@ -68,7 +74,7 @@ use emit::{
     and::And,
     platform::thread_local_ctxt::ThreadLocalCtxt,
     runtime::{AmbientClock, AmbientCtxt, AmbientEmitter, AmbientFilter, AmbientRng, AmbientSlot, Runtime},
-    SpanCtxt,
+    Emitter as _, SpanCtxt,
 };
 use emit_traceparent::{in_sampled_trace_filter, InSampledTraceFilter, TraceparentCtxt, TraceparentFilter};
 use spantree::*;
@@ -244,9 +250,812 @@ wrap_env!(
 
 const N_WRAPPED: usize = 8;
 
+// ---------------------------------------------------------------------------
+// RE-ENTRANT user components (round h): instrumented samplers / filters / emitters
+// ---------------------------------------------------------------------------
+//
+// The sampler, the runtime filter and the emitter of the four runtimes below are not pure look-ups:
+// WHILE THEY ARE BEING CONSULTED (i.e. inside `TraceparentCtxt::with_current` of the runtime the
+// tree runs on) they, driven by a seeded per-tree script,
+//
+// * run a function carrying `#[emit::span(rt: POLICY_RT, ..)]` on a SECOND runtime whose context is
+//   also a `TraceparentCtxt<ThreadLocalCtxt>` (the documented way to trace the sampling policy
+//   itself; sync, async, with a nested child, with a child on another thread through a captured
+//   frame; three policy runtimes: generic with its own sampler, generic without a sampler on the
+//   SHARED thread-local storage, `setup_with_sampler` in an `AmbientSlot`),
+// * push / enter frames on the SAME runtime's context (`Frame::push(ctxt, props).call`,
+//   `Frame::current(ctxt).call`, `.in_future`), push incoming headers (`Traceparent::push`,
+//   `emit_traceparent::push(tp, tracestate)`, `Tracestate::push`) - optionally doing one of the other
+//   things inside,
+// * emit an event through the same runtime or through a policy runtime,
+// * read `Traceparent::current()` / `SpanCtxt::current(ctxt)` / `Tracestate::current()`.
+//
+// Oracle. The whole C18 model keeps judging the OUTER tree unchanged (the outer sampler's log only
+// ever contains outer spans: a call for anything else is `sampler-called-for-unknown-span`).
+// For the re-entrant actions themselves, from the statement:
+//
+// * nothing panics;
+// * "the previous traceparent is restored whenever a span or pushed header goes out of scope":
+//   traceparent, tracestate and `SpanCtxt::current` after every action equal those before it - the
+//   component leaves no trace context behind;
+// * the sampler is only ever consulted where the current traceparent is NOT valid (otherwise the
+//   span would be a child / continuation);
+// * a policy span follows the very same rule as every span ("the sampler runs exactly once for each
+//   new trace, at its root span, and never for child spans or continued traces, whose flag is
+//   inherited"): the thread's current traceparent is shared by all `TraceparentCtxt`s (documented on
+//   the type), so started where the current traceparent is valid - inside a filter / emitter consulted
+//   within a trace, or inside a header the component pushed - it is a CHILD of it (same trace id, flag
+//   inherited, own span id, span_parent = the current span id, the policy runtime's sampler NOT
+//   consulted); started where it is not valid - ALWAYS the case inside the sampler, which is consulted
+//   before the outer span's frame exists - it is the ROOT OF ITS OWN NEW TRACE: the policy runtime's
+//   sampler is consulted exactly once, with its ids, its answer is the flag inside, the span event is
+//   emitted iff sampled and has no parent. How decided: statement + `SpanGuard::new` docs (the filter
+//   is checked before the frame is created) + `incoming_traceparent`'s documented rule "only a valid
+//   active traceparent is a parent";
+// * inside a policy span `Traceparent::current()` == (trace id, the policy span's id, flag) and
+//   `SpanCtxt::current(policy ctxt)` shows exactly those ids when sampled and nothing when not;
+// * inside a pushed header `Traceparent::current()` is that header byte for byte; inside a non-span
+//   frame / a pushed tracestate it is unchanged;
+// * events: outside any trace or inside a sampled trace exactly one copy is delivered, carrying the
+//   current trace / span id inside a sampled trace; inside an unsampled trace none with the
+//   sampled-trace filter (unconstrained without it).
+
+#[derive(Clone, Copy, PartialEq, Eq, Debug)]
+enum Who {
+    Sampler,
+    Filter,
+    Emitter,
+}
+
+impl Who {
+    fn name(&self) -> &'static str {
+        match self {
+            Who::Sampler => "sampler",
+            Who::Filter => "filter",
+            Who::Emitter => "emitter",
+        }
+    }
+}
+
+#[derive(Clone, Debug)]
+struct SpanPlan {
+    is_async: bool,
+    event: bool,
+    /// (on another thread through a captured frame, the child)
+    child: Option<(bool, Box<SpanPlan>)>,
+}
+
+#[derive(Clone, Debug)]
+enum Inner {
+    Nothing,
+    Read,
+    Span { prt: u8, plan: SpanPlan },
+    EmitSame,
+    EmitPolicy { prt: u8 },
+}
+
+#[derive(Clone, Debug)]
+enum Act {
+    Read,
+    Span { prt: u8, plan: SpanPlan },
+    PlainFrame { fut: bool, inner: Inner },
+    CurrentFrame { inner: Inner },
+    PushTp { header: Tp, with_state: bool, fut: bool, inner: Inner },
+    PushState { inner: Inner },
+    EmitSame,
+    EmitPolicy { prt: u8 },
+}
+
+impl Act {
+    fn name(&self) -> &'static str {
+        match self {
+            Act::Read => "reads-current",
+            Act::Span { .. } => "runs-policy-span",
+            Act::PlainFrame { .. } => "enters-frame-on-same-ctxt",
+            Act::CurrentFrame { .. } => "enters-current-frame-on-same-ctxt",
+            Act::PushTp { .. } => "pushes-traceparent",
+            Act::PushState { .. } => "pushes-tracestate",
+            Act::EmitSame => "emits-event-on-same-runtime",
+            Act::EmitPolicy { .. } => "emits-event-on-policy-runtime",
+        }
+    }
+}
+
+/// What a policy span was expected to be and what it saw.
+#[derive(Clone, Debug)]
+struct PSpan {
+    pid: u32,
+    who: Who,
+    penv: &'static str,
+    has_sampler: bool,
+    /// the traceparent that was current where it started
+    cur: Tp,
+    /// `Traceparent::current()` / `SpanCtxt::current(policy ctxt)` inside its body
+    inside: Option<(Tp, Ids)>,
+}
+
+#[derive(Clone, Debug)]
+struct PEvent {
+    pev: u32,
+    who: Who,
+    same_rt: bool,
+    cur: Tp,
+}
+
+struct PolicyState {
+    /// x in 16: how often the sampler / filter / emitter acts when consulted
+    p: [u64; 3],
+    g: Mutex<Rng>,
+    left: Mutex<u32>,
+    next_id: Mutex<u32>,
+    sink: vcommon::rec::Recorder,
+    sampler_table: Vec<bool>,
+    sampler_log: Mutex<Vec<SamplerCall>>,
+    spans: Mutex<Vec<PSpan>>,
+    pevents: Mutex<Vec<PEvent>>,
+    problems: Mutex<Vec<(String, String)>>,
+    counts: Mutex<std::collections::BTreeMap<String, u64>>,
+    acts: Mutex<Vec<String>>,
+}
+
+impl PolicyState {
+    fn new(seed: u64, index: u64, env: usize) -> PolicyState {
+        let mut g = Rng::stream(seed, &[18, 2, index, env as u64]);
+        let p = [*g.pick(&[8u64, 12, 16]), *g.pick(&[1u64, 2, 4]), *g.pick(&[1u64, 2, 4])];
+        let n = 1 + g.usize(4);
+        let bias = *g.pick(&[0u64, 6, 10, 16]);
+        let sampler_table = (0..n).map(|_| g.chance(bias, 16)).collect();
+        PolicyState {
+            p,
+            left: Mutex::new(if cfg!(miri) { 4 } else { 10 }),
+            g: Mutex::new(g),
+            next_id: Mutex::new(0),
+            sink: vcommon::rec::Recorder::new(),
+            sampler_table,
+            sampler_log: Mutex::new(Vec::new()),
+            spans: Mutex::new(Vec::new()),
+            pevents: Mutex::new(Vec::new()),
+            problems: Mutex::new(Vec::new()),
+            counts: Mutex::new(std::collections::BTreeMap::new()),
+            acts: Mutex::new(Vec::new()),
+        }
+    }
+
+    fn id(&self) -> u32 {
+        let mut n = self.next_id.lock().unwrap();
+        *n += 1;
+        *n
+    }
+
+    fn problem(&self, sig: String, what: String) {
+        self.problems.lock().unwrap().push((sig, what));
+    }
+
+    fn count(&self, key: String) {
+        *self.counts.lock().unwrap().entry(key).or_default() += 1;
+    }
+}
+
+fn policy_state() -> Option<std::sync::Arc<PolicyState>> {
+    let cx = current_tree_cx()?;
+    let ext = cx.0.ext.get()?.clone();
+    ext.downcast::<PolicyState>().ok()
+}
+
+thread_local! {
+    /// > 0 while a re-entrant component is acting on this thread (nested consultations stay plain)
+    static ACTING: std::cell::Cell<u32> = const { std::cell::Cell::new(0) };
+}
+
+struct Acting;
+
+impl Acting {
+    fn enter() -> Acting {
+        ACTING.with(|a| a.set(a.get() + 1));
+        Acting
+    }
+}
+
+impl Drop for Acting {
+    fn drop(&mut self) {
+        let _ = ACTING.try_with(|a| a.set(a.get().saturating_sub(1)));
+    }
+}
+
+// --- the policy runtimes --------------------------------------------------------------------------
+
+/// The emitter of the policy runtimes: records into the policy log of the tree running on this thread.
+pub struct PolicySink;
+
+impl emit::Emitter for PolicySink {
+    fn emit<E: emit::event::ToEvent>(&self, evt: E) {
+        match policy_state() {
+            Some(st) => st.sink.emit(evt),
+            None => ORPHANS.emit(evt),
+        }
+    }
+
+    fn blocking_flush(&self, _: std::time::Duration) -> bool {
+        true
+    }
+}
+
+/// The sampler of the policy runtimes: its own seeded table, its own log.
+fn policy_sampler(ctxt: &SpanCtxt) -> bool {
+    match policy_state() {
+        Some(st) => {
+            let mut log = st.sampler_log.lock().unwrap();
+            let decision = st.sampler_table[log.len() % st.sampler_table.len()];
+            log.push(SamplerCall {
+                seen: Ids::of(ctxt),
+                decision,
+                thread: tid(),
+            });
+            decision
+        }
+        None => {
+            ORPHANS.emit(emit::evt!("policy sampler called outside a tree"));
+            true
+        }
+    }
+}
+
+type PRt = Runtime<PolicySink, TraceparentFilter<SamplerFn>, TraceparentCtxt<ThreadLocalCtxt>, FakeClock, CountingRng>;
+
+const POLICY_RNG: u64 = 1u64 << 56;
+
+static PRT_A: LazyLock<PRt> = LazyLock::new(|| {
+    Runtime::build(
+        PolicySink,
+        TraceparentFilter::new_with_sampler(policy_sampler as SamplerFn),
+        TraceparentCtxt::new(ThreadLocalCtxt::new()),
+        clock(),
+        CountingRng::starting_at(POLICY_RNG),
+    )
+});
+
+/// No sampler (every new trace is sampled), on the thread-local storage SHARED with `RT1` /
+/// `RT_RE2` / the `&TraceparentCtxt` runtime.
+static PRT_B: LazyLock<PRt> = LazyLock::new(|| {
+    Runtime::build(
+        PolicySink,
+        TraceparentFilter::new(),
+        TraceparentCtxt::new(ThreadLocalCtxt::shared()),
+        clock(),
+        CountingRng::starting_at(POLICY_RNG + (1 << 52)),
+    )
+});
+
+static PSLOT_C: AmbientSlot = AmbientSlot::new();
+
+impl_env!(PEnvA, "policy:generic-runtime+sampler", true, [PolicySink, TraceparentFilter<SamplerFn>, TraceparentCtxt<ThreadLocalCtxt>, FakeClock, CountingRng], &PRT_A);
+impl_env!(PEnvB, "policy:generic-runtime-no-sampler-shared-storage", true, [PolicySink, TraceparentFilter<SamplerFn>, TraceparentCtxt<ThreadLocalCtxt>, FakeClock, CountingRng], &PRT_B);
+ambient_env!(PEnvC, "policy:setup_with_sampler-slot", PSLOT_C);
+
+const N_POLICY_RT: u64 = 3;
+
+// --- policy spans -----------------------------------------------------------------------------------
+
+#[emit::span(rt: *P::rt(), "policy {pid}", pid)]
+fn policy_span_sync<P: Env>(pid: u32, st: &std::sync::Arc<PolicyState>, who: Who, plan: &SpanPlan, cur: Tp) {
+    policy_body::<P>(pid, st, who, plan, cur)
+}
+
+#[emit::span(rt: *P::rt(), "policy {pid}", pid)]
+async fn policy_span_async<P: Env>(pid: u32, st: &std::sync::Arc<PolicyState>, who: Who, plan: &SpanPlan, cur: Tp) {
+    // a real suspension point: the frame is exited and entered again before the body runs
+    YieldNow::new().await;
+    policy_body::<P>(pid, st, who, plan, cur)
+}
+
+/// `block_on` for the futures the components create. If polling panics (only ever under a defect), the
+/// future is leaked instead of dropped: `FrameFuture`'s destructor enters the frame once more, and a
+/// second panic while the first one unwinds would abort the whole monitor before it can report the
+/// first one with a precise signature.
+fn drive<F: std::future::Future>(f: F) -> F::Output {
+    let mut f = Box::pin(f);
+    match std::panic::catch_unwind(std::panic::AssertUnwindSafe(|| block_on(f.as_mut()))) {
+        Ok(v) => v,
+        Err(p) => {
+            std::mem::forget(f);
+            std::panic::resume_unwind(p)
+        }
+    }
+}
+
+/// Start one policy span on policy runtime `P` where the current traceparent is `cur`.
+fn pspan<P: Env>(st: &std::sync::Arc<PolicyState>, who: Who, has_sampler: bool, plan: &SpanPlan, cur: Tp) {
+    if plan.is_async {
+        // The future the span macro generates cannot be leaked the way `drive` does: if entering its
+        // frame panics, the async fn's own cleanup drops the `FrameFuture`, whose destructor enters
+        // again - a panic in a destructor while unwinding aborts the process. So the component first
+        // enters a frame of the same kind synchronously (the current traceparent, pushed once more:
+        // harmless by the restoration rule); if THAT panics it is reported precisely and the async
+        // span is not started.
+        if let Err(m) = catch(|| emit_traceparent::Traceparent::current().push().call(|| ())) {
+            st.problem(
+                format!("reentrant:panic:{}-enters-a-traceparent-frame", who.name()),
+                format!("Traceparent::current().push().call(..) inside the {} (before an async policy span) panicked: {}", who.name(), m),
+            );
+            return;
+        }
+    }
+    let pid = st.id();
+    st.spans.lock().unwrap().push(PSpan {
+        pid,
+        who,
+        penv: P::NAME,
+        has_sampler,
+        cur,
+        inside: None,
+    });
+    st.count(format!("policy-spans:{}:{}", who.name(), if cur.valid() { "child-of-current" } else { "own-new-trace" }));
+    if plan.is_async {
+        drive(policy_span_async::<P>(pid, st, who, plan, cur));
+    } else {
+        policy_span_sync::<P>(pid, st, who, plan, cur);
+    }
+    let after = Tp::of(&emit_traceparent::Traceparent::current());
+    if after != cur {
+        st.problem(
+            format!("reentrant:traceparent-not-restored:after-policy-span:{}", who.name()),
+            format!("policy span {} started by the {} where the current traceparent was {}; after it returned it is {}", pid, who.name(), cur.show(), after.show()),
+        );
+    }
+}
+
+fn pspan_on(prt: u8, st: &std::sync::Arc<PolicyState>, who: Who, plan: &SpanPlan, cur: Tp) {
+    match prt {
+        0 => pspan::<PEnvA>(st, who, true, plan, cur),
+        1 => pspan::<PEnvB>(st, who, false, plan, cur),
+        _ => pspan::<PEnvC>(st, who, true, plan, cur),
+    }
+}
+
+fn policy_body<P: Env>(pid: u32, st: &std::sync::Arc<PolicyState>, who: Who, plan: &SpanPlan, _cur: Tp) {
+    let inside = Tp::of(&emit_traceparent::Traceparent::current());
+    let ids = Ids::of(&SpanCtxt::current(P::rt().ctxt()));
+    if let Some(s) = st.spans.lock().unwrap().iter_mut().find(|s| s.pid == pid) {
+        s.inside = Some((inside, ids));
+    }
+    if plan.event {
+        emit_policy::<P>(st, who, inside);
+    }
+    if let Some((on_thread, child)) = &plan.child {
+        let has_sampler = st.spans.lock().unwrap().iter().find(|s| s.pid == pid).map(|s| s.has_sampler).unwrap_or(true);
+        if *on_thread {
+            // the documented way to carry the context to another thread
+            let cx = current_tree_cx();
+            let f = P::in_current_frame(Box::new(|| {
+                let run = || {
+                    let _acting = Acting::enter();
+                    let there = Tp::of(&emit_traceparent::Traceparent::current());
+                    if there != inside {
+                        st.problem(
+                            format!("reentrant:policy-span:captured-frame-does-not-carry-traceparent:{}", who.name()),
+                            format!("policy span {}: Frame::current(policy ctxt) captured where the traceparent is {} shows {} on the other thread", pid, inside.show(), there.show()),
+                        );
+                    }
+                    pspan::<P>(st, who, has_sampler, child, there);
+                };
+                match &cx {
+                    Some(cx) => with_tree(cx, run),
+                    None => run(),
+                }
+            }));
+            std::thread::scope(|s| {
+                if let Err(p) = s.spawn(f).join() {
+                    std::panic::resume_unwind(p);
+                }
+            });
+            st.count(format!("policy-spans:{}:child-on-another-thread", who.name()));
+        } else {
+            pspan::<P>(st, who, has_sampler, child, inside);
+        }
+        let again = Tp::of(&emit_traceparent::Traceparent::current());
+        if again != inside {
+            st.problem(
+                format!("reentrant:traceparent-not-restored:after-nested-policy-span:{}", who.name()),
+                format!("inside policy span {} the traceparent was {}, after its nested span it is {}", pid, inside.show(), again.show()),
+            );
+        }
+    }
+}
+
+fn emit_policy<P: Env>(st: &std::sync::Arc<PolicyState>, who: Who, cur: Tp) {
+    let pev = st.id();
+    st.pevents.lock().unwrap().push(PEvent {
+        pev,
+        who,
+        same_rt: false,
+        cur,
+    });
+    emit::info!(rt: *P::rt(), "policy event {pev}", pev);
+}
+
+fn emit_policy_on(prt: u8, st: &std::sync::Arc<PolicyState>, who: Who, cur: Tp) {
+    match prt {
+        0 => emit_policy::<PEnvA>(st, who, cur),
+        1 => emit_policy::<PEnvB>(st, who, cur),
+        _ => emit_policy::<PEnvC>(st, who, cur),
+    }
+}
+
+fn emit_same<X: Env>(st: &std::sync::Arc<PolicyState>, who: Who, cur: Tp) {
+    let pev = st.id();
+    st.pevents.lock().unwrap().push(PEvent {
+        pev,
+        who,
+        same_rt: true,
+        cur,
+    });
+    emit::info!(rt: *X::rt(), "policy event {pev}", pev);
+}
+
+// --- generating and running one action -----------------------------------------------------------
+
+fn gen_span_plan(g: &mut Rng, depth: u32) -> SpanPlan {
+    SpanPlan {
+        is_async: g.chance(1, 3),
+        event: g.chance(1, 2),
+        child: if depth < 2 && g.chance(1, 3) { Some((g.chance(1, 3), Box::new(gen_span_plan(g, depth + 1)))) } else { None },
+    }
+}
+
+fn gen_inner(g: &mut Rng) -> Inner {
+    match g.below(6) {
+        0 => Inner::Nothing,
+        1 => Inner::Read,
+        2 | 3 => Inner::Span {
+            prt: g.below(N_POLICY_RT) as u8,
+            plan: gen_span_plan(g, 1),
+        },
+        4 => Inner::EmitSame,
+        _ => Inner::EmitPolicy { prt: g.below(N_POLICY_RT) as u8 },
+    }
+}
+
+fn gen_header(g: &mut Rng) -> Tp {
+    let trace = (0xabu128 << 120) | g.next() as u128;
+    let span = (0xcdu64 << 56) | (g.next() >> 8);
+    match g.below(6) {
+        0 | 1 => Tp { trace: Some(trace), span: Some(span), flags: 1 },
+        2 | 3 => Tp { trace: Some(trace), span: Some(span), flags: 0 },
+        4 => Tp { trace: None, span: None, flags: g.below(2) as u8 },
+        _ => Tp { trace: Some(trace), span: None, flags: g.below(2) as u8 },
+    }
+}
+
+fn gen_act(g: &mut Rng) -> Act {
+    match g.below(12) {
+        0 => Act::Read,
+        1 | 2 | 3 => Act::Span {
+            prt: g.below(N_POLICY_RT) as u8,
+            plan: gen_span_plan(g, 0),
+        },
+        4 | 5 => Act::PlainFrame {
+            fut: g.chance(1, 3),
+            inner: gen_inner(g),
+        },
+        6 => Act::CurrentFrame { inner: gen_inner(g) },
+        7 | 8 => Act::PushTp {
+            header: gen_header(g),
+            with_state: g.chance(1, 3),
+            fut: g.chance(1, 3),
+            inner: gen_inner(g),
+        },
+        9 => Act::PushState { inner: gen_inner(g) },
+        10 => Act::EmitSame,
+        _ => Act::EmitPolicy { prt: g.below(N_POLICY_RT) as u8 },
+    }
+}
+
+#[derive(Clone, PartialEq, Debug)]
+struct Snapshot {
+    tp: Tp,
+    state: String,
+    ids: Ids,
+    /// `emit_traceparent::current()` (the pair) agrees with `Traceparent::current()` / `Tracestate::current()`
+    pair_ok: bool,
+}
+
+fn snapshot<X: Env>() -> Snapshot {
+    let (tp, ts) = emit_traceparent::current();
+    let alone = emit_traceparent::Traceparent::current();
+    let state_alone = emit_traceparent::Tracestate::current();
+    Snapshot {
+        // (both ways of reading it; they are documented as equivalent)
+        pair_ok: Tp::of(&tp) == Tp::of(&alone) && ts.get() == state_alone.get(),
+        tp: Tp::of(&alone),
+        state: ts.get().to_string(),
+        ids: Ids::of(&SpanCtxt::current(X::rt().ctxt())),
+    }
+}
+
+/// A snapshot taken by the component `who` at `place`, checked for the two things every read must satisfy:
+/// the pair accessor agrees with the single ones, and ("the current traceparent always equals the trace id,
+/// the innermost span's id and the sampled flag"; "if the current Traceparent is not sampled, then no
+/// SpanCtxt will be returned") `SpanCtxt::current(ctxt)` shows exactly the traceparent's ids when it is
+/// sampled and nothing when it is not.
+fn checked_snapshot<X: Env>(st: &PolicyState, who: Who, place: &str) -> Snapshot {
+    let snap = snapshot::<X>();
+    let w = who.name();
+    if !snap.pair_ok {
+        st.problem(format!("reentrant:current-pair-differs-from-traceparent-current:{}:{}", place, w), "emit_traceparent::current() != (Traceparent::current(), Tracestate::current())".into());
+    }
+    let consistent = if snap.tp.sampled() { snap.ids.trace == snap.tp.trace && snap.ids.span == snap.tp.span } else { snap.ids == Ids::EMPTY };
+    if !consistent {
+        st.problem(
+            format!("reentrant:span-ctxt-disagrees-with-traceparent:{}:{}", place, w),
+            format!("read by the {} {}: Traceparent::current() is {} and SpanCtxt::current(ctxt) is {}", w, place, snap.tp.show(), snap.ids.show()),
+        );
+    }
+    snap
+}
+
+fn do_inner<X: Env>(st: &std::sync::Arc<PolicyState>, who: Who, inner: &Inner, cur: Tp) {
+    match inner {
+        Inner::Nothing => {}
+        Inner::Read => {
+            let _ = checked_snapshot::<X>(st, who, "nested-read");
+        }
+        Inner::Span { prt, plan } => pspan_on(*prt, st, who, plan, cur),
+        Inner::EmitSame => emit_same::<X>(st, who, cur),
+        Inner::EmitPolicy { prt } => emit_policy_on(*prt, st, who, cur),
+    }
+}
+
+fn do_act<X: Env>(st: &std::sync::Arc<PolicyState>, who: Who, act: &Act, before: &Snapshot) {
+    let xc = X::rt().ctxt();
+    let w = who.name();
+    match act {
+        Act::Read => {}
+        Act::Span { prt, plan } => pspan_on(*prt, st, who, plan, before.tp),
+        Act::EmitSame => emit_same::<X>(st, who, before.tp),
+        Act::EmitPolicy { prt } => emit_policy_on(*prt, st, who, before.tp),
+        Act::PlainFrame { fut, inner } => {
+            let body = || {
+                let inside = checked_snapshot::<X>(st, who, "inside-its-plain-frame");
+                if inside.tp != before.tp {
+                    st.problem(
+                        format!("reentrant:non-span-frame-changes-traceparent:{}", w),
+                        format!("inside Frame::push(ctxt, plain props) entered by the {} the traceparent is {}, outside {}", w, inside.tp.show(), before.tp.show()),
+                    );
+                }
+                do_inner::<X>(st, who, inner, inside.tp);
+            };
+            let frame = emit::Frame::push(xc, ("policy", 1));
+            if *fut {
+                drive(frame.in_future(async {
+                    YieldNow::new().await;
+                    body()
+                }));
+            } else {
+                frame.call(body);
+            }
+        }
+        Act::CurrentFrame { inner } => {
+            emit::Frame::current(xc).call(|| {
+                let inside = checked_snapshot::<X>(st, who, "inside-its-current-frame");
+                if inside != *before {
+                    st.problem(
+                        format!("reentrant:current-frame-changes-context:{}", w),
+                        format!("inside Frame::current(ctxt).call entered by the {}: {:?}, outside {:?}", w, inside, before),
+                    );
+                }
+                do_inner::<X>(st, who, inner, inside.tp);
+            });
+        }
+        Act::PushTp { header, with_state, fut, inner } => {
+            let body = || {
+                let inside = checked_snapshot::<X>(st, who, "inside-its-pushed-header");
+                if inside.tp != *header {
+                    st.problem(
+                        format!("reentrant:pushed-header-not-current:{}", w),
+                        format!("inside the header {} pushed by the {} the traceparent is {}", header.show(), w, inside.tp.show()),
+                    );
+                }
+                if *with_state && inside.state != "policy=1" {
+                    st.problem(
+                        format!("reentrant:pushed-tracestate-not-current:{}", w),
+                        format!("inside push(traceparent, tracestate) by the {} the tracestate is {:?}", w, inside.state),
+                    );
+                }
+                do_inner::<X>(st, who, inner, *header);
+            };
+            let frame = if *with_state {
+                emit_traceparent::push(header.to_traceparent(), emit_traceparent::Tracestate::new_raw("policy=1"))
+            } else {
+                header.to_traceparent().push()
+            };
+            if *fut {
+                drive(frame.in_future(async {
+                    YieldNow::new().await;
+                    body()
+                }));
+            } else {
+                frame.call(body);
+            }
+        }
+        Act::PushState { inner } => {
+            emit_traceparent::Tracestate::new_raw("policy=2").push().call(|| {
+                let inside = checked_snapshot::<X>(st, who, "inside-its-pushed-tracestate");
+                if inside.tp != before.tp || inside.state != "policy=2" {
+                    st.problem(
+                        format!("reentrant:pushed-tracestate-not-current:{}", w),
+                        format!("inside Tracestate::push by the {}: traceparent {} (outside {}), tracestate {:?}", w, inside.tp.show(), before.tp.show(), inside.state),
+                    );
+                }
+                do_inner::<X>(st, who, inner, inside.tp);
+            });
+        }
+    }
+}
+
+/// Called by the re-entrant components of runtime `X` whenever they are consulted.
+fn maybe_act<X: Env>(who: Who) {
+    if std::thread::panicking() || ACTING.with(|a| a.get()) > 0 {
+        return;
+    }
+    let Some(st) = policy_state() else { return };
+    let act = {
+        let mut g = st.g.lock().unwrap();
+        let p = st.p[who as usize];
+        if !g.chance(p, 16) {
+            return;
+        }
+        let mut left = st.left.lock().unwrap();
+        if *left == 0 {
+            return;
+        }
+        *left -= 1;
+        gen_act(&mut g)
+    };
+    let _acting = Acting::enter();
+    let w = who.name();
+    st.count(format!("acts:{}:{}", w, act.name()));
+    st.acts.lock().unwrap().push(format!("{}: {:?}", w, act));
+    let before = match catch(|| checked_snapshot::<X>(&st, who, "when-consulted")) {
+        Ok(b) => b,
+        Err(m) => {
+            st.problem(format!("reentrant:panic:{}-reads-current", w), format!("reading Traceparent::current() / SpanCtxt::current(ctxt) inside the {} panicked: {}", w, m));
+            return;
+        }
+    };
+    if who == Who::Sampler && before.tp.valid() {
+        st.problem(
+            "reentrant:sampler-consulted-inside-a-valid-trace".into(),
+            format!("the sampler is running while Traceparent::current() is {} (a span started here is a child / continuation)", before.tp.show()),
+        );
+    }
+    if let Err(m) = catch(|| do_act::<X>(&st, who, &act, &before)) {
+        st.problem(format!("reentrant:panic:{}-{}", w, act.name()), format!("{:?} inside the {} panicked: {}", act, w, m));
+    }
+    match catch(|| checked_snapshot::<X>(&st, who, "after-acting")) {
+        Ok(after) => {
+            if after != before {
+                let what = if after.tp != before.tp {
+                    "traceparent"
+                } else if after.state != before.state {
+                    "tracestate"
+                } else {
+                    "span-ctxt"
+                };
+                st.problem(
+                    format!("reentrant:context-left-behind:{}:{}-{}", what, w, act.name()),
+                    format!("before {:?} inside the {}: {:?}; after it: {:?}", act, w, before, after),
+                );
+            }
+        }
+        Err(m) => st.problem(format!("reentrant:panic:{}-reads-current", w), format!("reading the current context after {:?} inside the {} panicked: {}", act, w, m)),
+    }
+}
+
+// --- the re-entrant components ---------------------------------------------------------------------
+
+fn re_sampler<X: Env>(ctxt: &SpanCtxt) -> bool {
+    maybe_act::<X>(Who::Sampler);
+    table_sampler(ctxt)
+}
+
+/// Acts, then asks the wrapped filter.
+pub struct ReFilter<X, F>(F, std::marker::PhantomData<fn() -> X>);
+
+impl<X: Env, F: emit::Filter> emit::Filter for ReFilter<X, F> {
+    fn matches<E: emit::event::ToEvent>(&self, evt: E) -> bool {
+        let evt = evt.to_event();
+        maybe_act::<X>(Who::Filter);
+        self.0.matches(&evt)
+    }
+}
+
+/// Acts and lets everything pass (for `and_emit_when` on a `Setup`).
+pub struct RePass<X>(std::marker::PhantomData<fn() -> X>);
+
+impl<X: Env> emit::Filter for RePass<X> {
+    fn matches<E: emit::event::ToEvent>(&self, _: E) -> bool {
+        maybe_act::<X>(Who::Filter);
+        true
+    }
+}
+
+/// Acts (while it still holds the event it was handed), then records the event.
+pub struct ReEmitter<X>(std::marker::PhantomData<fn() -> X>);
+
+impl<X: Env> emit::Emitter for ReEmitter<X> {
+    fn emit<E: emit::event::ToEvent>(&self, evt: E) {
+        let evt = evt.to_event();
+        maybe_act::<X>(Who::Emitter);
+        Routed.emit(&evt)
+    }
+
+    fn blocking_flush(&self, _: std::time::Duration) -> bool {
+        true
+    }
+}
+
+const RE_RNG: u64 = 1u64 << 52;
+
+type ReF1 = ReFilter<EnvReGeneric, TraceparentFilter<SamplerFn>>;
+static RT_RE1: LazyLock<Runtime<ReEmitter<EnvReGeneric>, ReF1, TpCtxt, FakeClock, CountingRng>> = LazyLock::new(|| {
+    Runtime::build(
+        ReEmitter(std::marker::PhantomData),
+        ReFilter(TraceparentFilter::new_with_sampler(re_sampler::<EnvReGeneric> as SamplerFn), std::marker::PhantomData),
+        tp_ctxt(),
+        clock(),
+        CountingRng::starting_at(RE_RNG),
+    )
+});
+impl_env!(EnvReGeneric, "reentrant:generic-runtime", true, [ReEmitter<EnvReGeneric>, ReF1, TpCtxt, FakeClock, CountingRng], &RT_RE1);
+
+type ReF2 = ReFilter<EnvReGenericInSampled, And<TraceparentFilter<SamplerFn>, InSampledTraceFilter>>;
+static RT_RE2: LazyLock<Runtime<ReEmitter<EnvReGenericInSampled>, ReF2, TpCtxt, FakeClock, CountingRng>> = LazyLock::new(|| {
+    Runtime::build(
+        ReEmitter(std::marker::PhantomData),
+        ReFilter(
+            And::new(TraceparentFilter::new_with_sampler(re_sampler::<EnvReGenericInSampled> as SamplerFn), in_sampled_trace_filter(true)),
+            std::marker::PhantomData,
+        ),
+        // (the storage the no-sampler policy runtime also uses)
+        TraceparentCtxt::new(ThreadLocalCtxt::shared()),
+        clock(),
+        CountingRng::starting_at(RE_RNG + (1 << 48)),
+    )
+});
+impl_env!(EnvReGenericInSampled, "reentrant:generic-runtime+in-sampled-filter", true, [ReEmitter<EnvReGenericInSampled>, ReF2, TpCtxt, FakeClock, CountingRng], &RT_RE2);
+
+static SLOT_RE3: AmbientSlot = AmbientSlot::new();
+static SLOT_RE4: AmbientSlot = AmbientSlot::new();
+ambient_env!(EnvReSetup, "reentrant:setup_with_sampler-slot", SLOT_RE3);
+ambient_env!(EnvReSetupInSampled, "reentrant:setup_with_sampler-slot+in-sampled-filter", SLOT_RE4);
+
+const N_REENTRANT: usize = 4;
+
 fn init_envs() {
     LazyLock::force(&RT1);
     LazyLock::force(&RT2);
+    LazyLock::force(&PRT_A);
+    LazyLock::force(&PRT_B);
+    LazyLock::force(&RT_RE1);
+    LazyLock::force(&RT_RE2);
+    let _ = emit_traceparent::setup_with_sampler(policy_sampler)
+        .emit_to(PolicySink)
+        .with_clock(clock())
+        .with_rng(CountingRng::starting_at(POLICY_RNG + (2 << 52)))
+        .init_slot(&PSLOT_C);
+    let _ = emit_traceparent::setup_with_sampler(re_sampler::<EnvReSetup>)
+        .and_emit_when(RePass::<EnvReSetup>(std::marker::PhantomData))
+        .emit_to(ReEmitter::<EnvReSetup>(std::marker::PhantomData))
+        .with_clock(clock())
+        .with_rng(CountingRng::starting_at(RE_RNG + (2 << 48)))
+        .init_slot(&SLOT_RE3);
+    let _ = emit_traceparent::setup_with_sampler(re_sampler::<EnvReSetupInSampled>)
+        .and_emit_when(in_sampled_trace_filter(true))
+        .and_emit_when(RePass::<EnvReSetupInSampled>(std::marker::PhantomData))
+        .emit_to(ReEmitter::<EnvReSetupInSampled>(std::marker::PhantomData))
+        .with_clock(clock())
+        .with_rng(CountingRng::starting_at(RE_RNG + (3 << 48)))
+        .init_slot(&SLOT_RE4);
     // exactly the documented set-up path, with the emitter / clock / rng replaced
     let _ = emit_traceparent::setup_with_sampler(table_sampler)
         .emit_to(Routed)
@@ -1057,10 +1866,176 @@ fn case_input(seed: u64, index: u64) -> (Node, Vec<bool>) {
     (tree, table)
 }
 
-fn eval<X: Env>(r: &mut Report, in_sampled: bool, seed: u64, index: u64, tree: &Node, table: &[bool]) {
-    let run = run_tree::<X>(tree, table.to_vec());
+/// Judge what the re-entrant components of one tree run did (see the section comment above).
+fn judge_policy(r: &mut Report, st: &PolicyState, same_rt: &[vcommon::rec::Captured], in_sampled: bool, env: &str, case: &dyn Fn() -> Json) {
+    let mut found: Vec<(String, String)> = std::mem::take(&mut *st.problems.lock().unwrap());
+    let pol = st.sink.take();
+    let spans = st.spans.lock().unwrap().clone();
+    let pevents = st.pevents.lock().unwrap().clone();
+    let calls = st.sampler_log.lock().unwrap().clone();
+    let num = |c: &vcommon::rec::Captured, k: &str| c.get(k).and_then(|v| v.parse::<u32>().ok());
+    let mut explained: HashSet<u64> = HashSet::new();
+
+    for sp in &spans {
+        let w = sp.who.name();
+        let Some((inside, ids)) = sp.inside else {
+            found.push((format!("reentrant:policy-span:body-did-not-run:{}", w), format!("policy span {} on {} never ran its body", sp.pid, sp.penv)));
+            continue;
+        };
+        let own: Vec<&SamplerCall> = calls.iter().filter(|c| c.seen.span.is_some() && c.seen.span == inside.span).collect();
+        let model_sampled;
+        if sp.cur.valid() {
+            // a child of whatever is current (the current traceparent is shared by every TraceparentCtxt)
+            model_sampled = sp.cur.sampled();
+            if inside.trace != sp.cur.trace {
+                found.push((format!("reentrant:policy-span:child-leaves-the-trace:{}", w), format!("policy span {} started where the traceparent was {} but inside it is {}", sp.pid, sp.cur.show(), inside.show())));
+            }
+            if inside.sampled() != sp.cur.sampled() {
+                found.push((format!("reentrant:policy-span:sampled-flag-not-inherited:{}", w), format!("policy span {} started under {} but inside it is {}", sp.pid, sp.cur.show(), inside.show())));
+            }
+            if inside.span.is_none() || inside.span == sp.cur.span {
+                found.push((format!("reentrant:policy-span:no-own-span-id-in-traceparent:{}", w), format!("policy span {} started under {} and inside it is {}", sp.pid, sp.cur.show(), inside.show())));
+            }
+            if !own.is_empty() {
+                found.push((format!("reentrant:policy-sampler-called-for-child:{}", w), format!("policy span {} started under the valid traceparent {} and the policy sampler was consulted for it", sp.pid, sp.cur.show())));
+            }
+            r.observe("reentrant:policy-spans:child-of-current", 1);
+        } else {
+            // the root of its own new trace
+            if inside.trace.is_none() || inside.span.is_none() {
+                found.push((format!("reentrant:policy-span:new-trace-without-ids:{}", w), format!("policy span {} starts a new trace but inside it the traceparent is {}", sp.pid, inside.show())));
+            }
+            if sp.has_sampler {
+                match own.as_slice() {
+                    [] => {
+                        model_sampled = inside.sampled();
+                        found.push((
+                            format!("reentrant:policy-span:sampler-not-called-for-new-trace:{}", w),
+                            format!("policy span {} on {} started where the traceparent was {} (not valid: it is the root of a new trace, traceparent inside {}) but its runtime's sampler was never consulted for it", sp.pid, sp.penv, sp.cur.show(), inside.show()),
+                        ));
+                    }
+                    [c, rest @ ..] => {
+                        model_sampled = c.decision;
+                        if !rest.is_empty() {
+                            found.push((format!("reentrant:policy-span:sampler-called-{}-times-for-one-trace:{}", (rest.len() + 1).min(3), w), format!("policy span {}", sp.pid)));
+                        }
+                        if c.seen.trace != inside.trace {
+                            found.push((format!("reentrant:policy-span:sampler-saw-another-trace-id:{}", w), format!("policy span {}: sampler shown {}, traceparent inside {}", sp.pid, c.seen.show(), inside.show())));
+                        }
+                        if inside.sampled() != c.decision {
+                            found.push((
+                                format!("reentrant:policy-span:sampler-decision-not-applied:{}:{}", if c.decision { "said-sampled" } else { "said-unsampled" }, w),
+                                format!("policy span {}: its sampler answered {} but the traceparent inside it is {}", sp.pid, c.decision, inside.show()),
+                            ));
+                        }
+                    }
+                }
+            } else {
+                model_sampled = true;
+                if !inside.sampled() {
+                    found.push((format!("reentrant:policy-span:unsampled-without-a-sampler:{}", w), format!("policy span {} on a runtime without a sampler: traceparent inside {}", sp.pid, inside.show())));
+                }
+            }
+            if let Some(s) = inside.span {
+                explained.insert(s);
+            }
+            r.observe(&format!("reentrant:policy-spans:own-new-trace:started-in-{}", w), 1);
+        }
+        // SpanCtxt::current(policy ctxt) inside
+        let want_parent = if sp.cur.valid() { sp.cur.span } else { None };
+        let ids_ok = if inside.sampled() { ids.trace == inside.trace && ids.span == inside.span && ids.parent == want_parent } else { ids == Ids::EMPTY };
+        if !ids_ok {
+            found.push((
+                format!("reentrant:policy-span:span-ctxt-disagrees-with-traceparent:{}", w),
+                format!("inside policy span {} Traceparent::current() is {} and SpanCtxt::current(policy ctxt) is {} (started under {})", sp.pid, inside.show(), ids.show(), sp.cur.show()),
+            ));
+        }
+        // its span event
+        let evs: Vec<&vcommon::rec::Captured> = pol.iter().filter(|c| c.get("evt_kind") == Some("span") && num(c, "pid") == Some(sp.pid)).collect();
+        r.observe("reentrant:policy-span-events", evs.len() as u64);
+        let want = model_sampled as usize;
+        if evs.len() != want {
+            found.push((
+                format!(
+                    "reentrant:policy-span:{}-span-events:{}:{}",
+                    evs.len().min(2),
+                    if sp.cur.valid() { if model_sampled { "in-sampled-trace" } else { "in-unsampled-trace" } } else if model_sampled { "sampled-root" } else { "rejected-root" },
+                    w
+                ),
+                format!("policy span {} (started under {}, inside {}) produced {} span events, expected {}", sp.pid, sp.cur.show(), inside.show(), evs.len(), want),
+            ));
+        }
+        if model_sampled {
+            for e in &evs {
+                if e.get("trace_id").map(|s| s.to_string()) != inside.trace.map(hex_trace) || e.get("span_id").map(|s| s.to_string()) != inside.span.map(hex_span) || e.get("span_parent").map(|s| s.to_string()) != want_parent.map(hex_span) {
+                    found.push((
+                        format!("reentrant:policy-span:span-event-ids:{}", w),
+                        format!("span event of policy span {} carries trace_id={:?} span_id={:?} span_parent={:?}; inside {}, started under {}", sp.pid, e.get("trace_id"), e.get("span_id"), e.get("span_parent"), inside.show(), sp.cur.show()),
+                    ));
+                }
+            }
+        }
+    }
+    for c in &calls {
+        if !c.seen.span.map(|s| explained.contains(&s)).unwrap_or(false) {
+            found.push(("reentrant:policy-sampler-called-for-unknown-span".into(), format!("the policy sampler was called with {} which is no policy span that starts a new trace", c.seen.show())));
+        }
+    }
+    r.observe("reentrant:policy-sampler-calls", calls.len() as u64);
+
+    for pe in &pevents {
+        let w = pe.who.name();
+        let evs: Vec<&vcommon::rec::Captured> = if pe.same_rt { same_rt.iter().filter(|c| num(c, "pev") == Some(pe.pev)).collect() } else { pol.iter().filter(|c| num(c, "pev") == Some(pe.pev)).collect() };
+        let via = if pe.same_rt { "same-runtime" } else { "policy-runtime" };
+        r.observe(&format!("reentrant:events-emitted-by-components:{}", via), 1);
+        let in_unsampled = pe.cur.valid() && !pe.cur.sampled();
+        if in_unsampled {
+            if pe.same_rt && in_sampled && !evs.is_empty() {
+                found.push((format!("reentrant:event-emitted-in-unsampled-trace-with-sampled-trace-filter:{}", w), format!("policy event {} emitted under {} was delivered {} times", pe.pev, pe.cur.show(), evs.len())));
+            }
+            continue; // otherwise unconstrained
+        }
+        if evs.len() != 1 {
+            found.push((
+                format!("reentrant:event-delivered-{}-times:{}:{}:{}", evs.len().min(2), if pe.cur.valid() { "in-sampled-trace" } else { "outside-any-trace" }, via, w),
+                format!("policy event {} emitted by the {} under {} was delivered {} times", pe.pev, w, pe.cur.show(), evs.len()),
+            ));
+        }
+        if pe.cur.valid() {
+            for e in &evs {
+                if e.get("trace_id").map(|s| s.to_string()) != pe.cur.trace.map(hex_trace) || e.get("span_id").map(|s| s.to_string()) != pe.cur.span.map(hex_span) {
+                    found.push((format!("reentrant:event-ids:{}:{}", via, w), format!("policy event {} emitted under {} carries trace_id={:?} span_id={:?}", pe.pev, pe.cur.show(), e.get("trace_id"), e.get("span_id"))));
+                }
+            }
+        }
+    }
+    // nothing else may have reached the policy sink
+    let stray = pol.iter().filter(|c| num(c, "pid").is_none() && num(c, "pev").is_none()).count();
+    if stray > 0 {
+        found.push(("reentrant:unexplained-events-on-policy-runtime".into(), format!("{} events on the policy runtimes carry neither pid nor pev", stray)));
+    }
+    for (k, v) in st.counts.lock().unwrap().iter() {
+        r.observe(&format!("reentrant:{}", k), *v);
+    }
+    let acts = st.acts.lock().unwrap().clone();
+    for (sig, what) in found {
+        let mut c = case();
+        c["reentrant_actions"] = json!(acts);
+        r.violation(&format!("C18:{}:{}", sig, env), &what, c);
+    }
+}
+
+fn eval<X: Env>(r: &mut Report, in_sampled: bool, seed: u64, index: u64, tree: &Node, table: &[bool], policy: Option<std::sync::Arc<PolicyState>>) {
+    let mut run = run_tree_ext::<X>(tree, table.to_vec(), policy.clone().map(|p| p as std::sync::Arc<dyn std::any::Any + Send + Sync>));
     r.eval();
     let case = || json!({"seed": seed, "index": index, "env": X::NAME, "sampler_table": table, "tree": tree.to_json()});
+    if let Some(st) = &policy {
+        // events the components emitted through the runtime under test are judged with the policy log
+        let (same_rt, outer): (Vec<_>, Vec<_>) = std::mem::take(&mut run.events).into_iter().partition(|c| c.get("pev").is_some());
+        run.events = outer;
+        judge_policy(r, st, &same_rt, in_sampled, X::NAME, &case);
+        r.observe("reentrant:trees", 1);
+    }
     if let Some(msg) = &run.panicked {
         r.violation(&format!("C18:panic:{}", X::NAME), &format!("running the tree panicked: {}", msg), case());
         return;
@@ -1137,23 +2112,29 @@ fn eval<X: Env>(r: &mut Report, in_sampled: bool, seed: u64, index: u64, tree: &
 }
 
 fn eval_env(r: &mut Report, env: usize, seed: u64, index: u64, tree: &Node, table: &[bool]) {
+    let policy = || Some(std::sync::Arc::new(PolicyState::new(seed, index, env)));
     match env {
-        0 => eval::<EnvGeneric>(r, false, seed, index, tree, table),
-        1 => eval::<EnvGenericInSampled>(r, true, seed, index, tree, table),
-        2 => eval::<EnvSetup>(r, false, seed, index, tree, table),
-        3 => eval::<EnvSetupInSampled>(r, true, seed, index, tree, table),
-        4 => eval::<EnvWrapAssert>(r, false, seed, index, tree, table),
-        5 => eval::<EnvWrapRef>(r, false, seed, index, tree, table),
-        6 => eval::<EnvWrapBox>(r, false, seed, index, tree, table),
-        7 => eval::<EnvWrapArc>(r, false, seed, index, tree, table),
-        8 => eval::<EnvWrapOption>(r, false, seed, index, tree, table),
-        9 => eval::<EnvWrapBoxDyn>(r, false, seed, index, tree, table),
-        10 => eval::<EnvWrapArcAssert>(r, false, seed, index, tree, table),
-        _ => eval::<EnvWrapAssertBoxDyn>(r, false, seed, index, tree, table),
+        0 => eval::<EnvGeneric>(r, false, seed, index, tree, table, None),
+        1 => eval::<EnvGenericInSampled>(r, true, seed, index, tree, table, None),
+        2 => eval::<EnvSetup>(r, false, seed, index, tree, table, None),
+        3 => eval::<EnvSetupInSampled>(r, true, seed, index, tree, table, None),
+        4 => eval::<EnvWrapAssert>(r, false, seed, index, tree, table, None),
+        5 => eval::<EnvWrapRef>(r, false, seed, index, tree, table, None),
+        6 => eval::<EnvWrapBox>(r, false, seed, index, tree, table, None),
+        7 => eval::<EnvWrapArc>(r, false, seed, index, tree, table, None),
+        8 => eval::<EnvWrapOption>(r, false, seed, index, tree, table, None),
+        9 => eval::<EnvWrapBoxDyn>(r, false, seed, index, tree, table, None),
+        10 => eval::<EnvWrapArcAssert>(r, false, seed, index, tree, table, None),
+        11 => eval::<EnvWrapAssertBoxDyn>(r, false, seed, index, tree, table, None),
+        // the runtimes whose sampler / filter / emitter are instrumented and re-entrant
+        12 => eval::<EnvReGeneric>(r, false, seed, index, tree, table, policy()),
+        13 => eval::<EnvReGenericInSampled>(r, true, seed, index, tree, table, policy()),
+        14 => eval::<EnvReSetup>(r, false, seed, index, tree, table, policy()),
+        _ => eval::<EnvReSetupInSampled>(r, true, seed, index, tree, table, policy()),
     }
 }
 
-const ENV_NAMES: [&str; 4 + N_WRAPPED] = [
+const ENV_NAMES: [&str; 4 + N_WRAPPED + N_REENTRANT] = [
     "generic-runtime",
     "generic-runtime+in-sampled-filter",
     "setup_with_sampler-slot",
@@ -1166,6 +2147,10 @@ const ENV_NAMES: [&str; 4 + N_WRAPPED] = [
     "wrapped:Box<dyn ErasedCtxt>(TraceparentCtxt<ThreadLocalCtxt>)",
     "wrapped:Arc<AssertInternal<TraceparentCtxt<ThreadLocalCtxt>>>",
     "wrapped:AssertInternal<Box<dyn ErasedCtxt>>(TraceparentCtxt<ThreadLocalCtxt>)",
+    "reentrant:generic-runtime",
+    "reentrant:generic-runtime+in-sampled-filter",
+    "reentrant:setup_with_sampler-slot",
+    "reentrant:setup_with_sampler-slot+in-sampled-filter",
 ];
 
 /// `c18 --repro captured-frame`: the smallest program that shows the captured-frame finding,
@@ -1246,19 +2231,24 @@ fn main() {
     let seed = args.seed;
     // Miri interprets ~1000x slower: a fixed small number of trees there, whatever the scale
     let n = if cfg!(miri) { args.get_u64("trees", 10) } else { args.n(4_000, 100_000) };
+    let miri_offset = args.get_u64("miri-seed", 0) * n;
     par_cases(&mut r, &args, n, |i, r| {
         let (tree, table) = case_input(seed, i);
         // every tree on a runtime without and one with the sampled-trace filter, alternating generic / erased
         let (a, b) = if i % 2 == 0 { (0, 3) } else { (2, 1) };
         if cfg!(miri) {
-            // seconds per tree under Miri: one runtime per tree, rotating over the four
-            eval_env(r, (i % (4 + N_WRAPPED as u64)) as usize, seed, i, &tree, &table);
+            // seconds per tree under Miri: one runtime per tree, rotating over all of them (the
+            // rotation starts where the previous Miri seed's trees ended, so every runtime is reached)
+            let all = ENV_NAMES.len() as u64;
+            eval_env(r, ((i + miri_offset) % all) as usize, seed, i, &tree, &table);
             eprintln!("[c18/miri] tree {} ({} nodes) done at {:.1}s", i, tree.count() - 1, r.elapsed_s());
         } else {
             eval_env(r, a, seed, i, &tree, &table);
             eval_env(r, b, seed, i, &tree, &table);
             // ... and on one of the runtimes whose trace context sits behind a forwarding wrapper
             eval_env(r, 4 + (i % N_WRAPPED as u64) as usize, seed, i, &tree, &table);
+            // ... and on one of the runtimes whose sampler / filter / emitter are re-entrant
+            eval_env(r, 4 + N_WRAPPED + ((i / 2) % N_REENTRANT as u64) as usize, seed, i, &tree, &table);
         }
     });
 
